@@ -282,7 +282,6 @@ func generatedTypeNames(p *packages.Package) map[string]bool {
 	return out
 }
 
-
 // lookupConst resolves a package-level constant by the name the rule tables know. A constant that was renamed is
 // recovered when exactly one constant of the package that is not frozen under its own name has the frozen type and value.
 var recordConsts = map[string]bool{}
